@@ -46,7 +46,8 @@ func descKV(l *hx.Line, p string, d Desc) {
 // observed runs `step` between two snapshots and writes the differences into l
 func (h *history) observed(l *hx.Line, acting *Instance, extra []Supplied, step func() string) {
 	w := h.w
-	sup := []Supplied{{"http.Client", h.sh.Client}, {"oauth2.Config", h.sh.Config}, {"[]rp.VerifierOption", h.sh.VOpts}, {"[]string", h.sh.Scopes}}
+	sup := []Supplied{{"http.Client", h.sh.Client}, {"oauth2.Config", h.sh.Config}, {"[]rp.VerifierOption", h.sh.VOpts}, {"[]string", h.sh.Scopes},
+		{"oidc.Error", StorageSentinel}} // the storage's sentinel error value: nobody but the storage may ever change it
 	sup = append(sup, extra...)
 	var others []*Instance
 	for _, in := range h.insts {
@@ -363,6 +364,21 @@ func SeqStream(w *World, r *hx.Rand, tier string, n int, emit func(*hx.Line)) ma
 			out(h.call(OpByEntry("op.Authorize.refused-overlap"), h.insts[0]))
 		}
 		w.ForceVariant = -1
+		// requests that the storage refuses with its sentinel *oidc.Error, on two providers and both routers, then the token
+		// endpoint of the OTHER provider (its JSON error document is built from the same sentinel): the sentinel is unchanged
+		// after every step and no answer carries another request's state
+		h = newHist()
+		out(h.construct("prov", "op.NewProvider", []string{"op.WithLogger"}))
+		out(h.construct("prov", "op.NewOpenIDProvider", []string{"op.WithLogger", "op.WithAllowInsecure"}))
+		for round := 0; round < 2; round++ {
+			for i, e := range []string{"op.Authorize.sentinel", "op.LegacyServer.Authorize.sentinel", "op.Exchange.sentinel",
+				"op.LegacyServer.Authorize.sentinel", "op.Authorize.sentinel", "op.Exchange.sentinel"} {
+				w.ForceVariant = round
+				out(h.call(OpByEntry(e), h.insts[(i+round)%2]))
+				stats["call.sentinel"]++
+			}
+		}
+		w.ForceVariant = -1
 		// relying parties with PKCE: one AuthURLHandler / CodeExchangeHandler value serves all requests
 		h = newHist()
 		out(h.construct("rp", "rp.NewRelyingPartyOAuth", []string{"rp.WithPKCE"}))
@@ -556,6 +572,10 @@ var Mixes = []Mix{
 		Ops: []string{"op.Authorize.refused", "op.LegacyServer.Authorize.refused", "op.Authorize"}},
 	{Name: "provider-refused-two-providers", Kind: "prov", Entry: "op.NewProvider", Opts: []string{"op.WithLogger"},
 		Ops: []string{"op.Authorize.refused", "op.LegacyServer.Authorize.refused"}, Second: true},
+	{Name: "provider-sentinel", Kind: "prov", Entry: "op.NewProvider", Opts: []string{"op.WithLogger"},
+		Ops: []string{"op.Authorize.sentinel", "op.LegacyServer.Authorize.sentinel", "op.Exchange.sentinel"}},
+	{Name: "provider-sentinel-two-providers", Kind: "prov", Entry: "op.NewProvider", Opts: []string{"op.WithLogger"},
+		Ops: []string{"op.Authorize.sentinel", "op.LegacyServer.Authorize.sentinel"}, Second: true},
 	{Name: "rp-pkce-handlers", Kind: "rp", Entry: "rp.NewRelyingPartyOAuth", Opts: []string{"rp.WithHTTPClient", "rp.WithPKCE"},
 		Ops: []string{"rp.AuthURLHandler.shared", "rp.CodeExchangeHandler.shared", "rp.AuthURL"}},
 	{Name: "rp-oidc-pkce-handlers", Kind: "rp", Entry: "rp.NewRelyingPartyOIDC", Opts: []string{"rp.WithHTTPClient", "rp.WithPKCE"},
